@@ -65,6 +65,10 @@ def make_pages(spec):
             geom = (base, [20.0, 8.0], np.asarray([[20, 40 + 70 * li], [400, 42 + 70 * li], [400, 70 + 70 * li], [20, 68 + 70 * li]], dtype=np.float64))
             line = build_line("p%d-l%d" % (pi, li), geom, l["text"], chars, l["seed"], confuse=l["confuse"], peak=tuple(l["peak"]))
             line.transcription = l["prior"]
+            if l.get("broken") == "no_logits":
+                line.logits = None
+            elif l.get("broken") == "dense_array":
+                line.logits = line.logits.toarray()
             lines.append(line)
         reg = RegionLayout("r0", region_polygon_around([x.polygon for x in lines]))
         reg.lines = lines
@@ -100,7 +104,10 @@ def config_strategy():
     from hypothesis import strategies as st
     line = st.fixed_dictionaries(dict(text=st.text("abcde ", min_size=1, max_size=6), seed=st.integers(0, 2 ** 31 - 1),
                                       confuse=st.sampled_from([0.0, 0.5, 0.9]), peak=st.sampled_from([(6.0, 14.0), (0.5, 2.5), (20.0, 25.0)]),
-                                      prior=st.one_of(st.none(), st.text("abcde ", min_size=0, max_size=5))))
+                                      prior=st.one_of(st.none(), st.text("abcde ", min_size=0, max_size=5)),
+                                      # lines that cannot be decoded (no logits; logits in a wrong container): process_page
+                                      # reports them and goes on - the same way whatever was processed before
+                                      broken=st.sampled_from([None, None, None, None, None, "no_logits", "dense_array"])))
     page = st.lists(line, min_size=1, max_size=4)
     return st.fixed_dictionaries(dict(
         pages=st.lists(page, min_size=2, max_size=4),
@@ -141,7 +148,7 @@ def make_decoder_machine(ctx):
                 d = make_decoder(self.cfg)
                 p = copy.deepcopy(self.pages[i])
                 with catching_errors() as h:
-                    d.process_page(p)
+                    self.ctx.must("process_page_raises", d.process_page, p)
                 self.fresh[i] = (page_result(p), list(h.records), d.lines_decoded, d.lines_examined)
             return self.fresh[i]
 
@@ -155,7 +162,10 @@ def make_decoder_machine(ctx):
             desc = lambda: "history=%r (decode ops: %r)" % (self.log[:1], [op[1] for op in self.log[1:]])
             ctx.check(list(h.records) == want_err, "line_failure_depends_on_history",
                       lambda: "errors now %r, alone %r; " % (h.records, want_err) + desc())
-            ctx.check(not h.records, "line_decoding_failed", lambda: "%r; " % (h.records,) + desc())
+            n_broken = sum(1 for l in self.cfg["pages"][i] if l.get("broken"))
+            ctx.check(len(h.records) == n_broken, "line_decoding_failed", lambda: "%d undecodable lines, errors %r; " % (n_broken, h.records) + desc())
+            if n_broken:
+                ctx.event("page_with_undecodable_line")
             ctx.check(got == want, "page_result_depends_on_history",
                       lambda: "page %d after %r: got %r, alone %r; " % (i, self.last, got, want) + desc())
             if self.last is not None:
@@ -391,7 +401,7 @@ def body_resume_state(ctx, case):
     if "job" not in _RS:
         root = tempfile.mkdtemp(prefix="verif-c08-")
         atexit.register(shutil.rmtree, root, True)
-        job = F.make_job(root, ids, [2, 1, 2], [5, 6, 7])
+        job = F.make_job(root, ids, [2, 1, 2], [5, 6, 7], heightless=True)
         with open(job["config"], "w") as f:
             f.write("[PAGE_PARSER]\nRUN_LAYOUT_PARSER = no\nRUN_LINE_CROPPER = yes\nRUN_OCR = no\nRUN_DECODER = no\n\n"
                     "[LINE_CROPPER]\nINTERP = 2\nLINE_SCALE = 1\nLINE_HEIGHT = 16\n")
